@@ -126,6 +126,31 @@ fn serde_ops<K2: KeyT + Tok, V2: ValT + TokV>(w: &mut World<K2, V2>, acc: &mut A
                 tokens.push(Token::MapEnd);
                 sut(|| serde_test::assert_ser_tokens(&slot.m, &tokens));
                 sut(|| serde_test::assert_de_tokens(&slot.m, &tokens));
+                // A stream may repeat a key (not something griddle emits, but the result must
+                // still be a map: every key once). Which value wins is not specified here:
+                // the later one (what `insert` does) or the earlier one are both accepted.
+                if n >= 1 {
+                    let d = n.min(3);
+                    let mut dup_tokens = vec![Token::Map { len: Some(n + d) }];
+                    dup_tokens.extend_from_slice(&tokens[1..tokens.len() - 1]);
+                    let firsts: Vec<(K2, V2)> = sut(|| slot.m.iter()).take(d).map(|(k, v)| (*k, *v)).collect();
+                    let mut later = sut(|| slot.m.clone());
+                    for (k, v) in &firsts {
+                        let v2 = V2::make(v.payload() ^ 0x5A5A);
+                        Tok::push_tokens(k, &mut dup_tokens);
+                        TokV::push_tokens(&v2, &mut dup_tokens);
+                        sut(|| later.insert(*k, v2));
+                    }
+                    dup_tokens.push(Token::MapEnd);
+                    let later_wins = std::panic::catch_unwind(std::panic::AssertUnwindSafe(|| sut(|| serde_test::assert_de_tokens(&later, &dup_tokens))));
+                    if let Err(e1) = later_wins {
+                        if e1.is::<ctx::FuseBlown>() {
+                            std::panic::resume_unwind(e1);
+                        }
+                        // first value wins?
+                        sut(|| serde_test::assert_de_tokens(&slot.m, &dup_tokens));
+                    }
+                }
                 n
             });
             match r.result {
